@@ -725,7 +725,14 @@ func cmdCheck(args []string) int {
 		if s := os.Getenv("SYMGO_SOLVERS"); s != "" {
 			solvers = strings.Split(s, ",")
 		}
+		knownLabels := map[string]bool{}
+		for _, k := range kn {
+			if k.prop == prop && k.harness == hs.Func {
+				knownLabels[k.label] = true
+			}
+		}
 		h := &interp.Harness{
+			KnownLabels: knownLabels,
 			Name: hs.Func, Fn: fn, Mode: mode, Thorough: tier == "thorough",
 			MapOrder: hs.MapOrder, MapPermMax: hs.MapPermMax, MaxMake: hs.MaxMake, GoMaxProcs: hs.GoMaxProcs,
 			SkipInit: hs.SkipInit, InitPkgs: hs.InitPkgs,
